@@ -26,7 +26,7 @@ func (b *base) flip(class string, off, bit int) *edited {
 }
 
 func (b *base) trunc(class string, cut int) *edited {
-	return &edited{base: b, class: class, edit: fmt.Sprintf("cut@%s", b.pos(cut)), segs: [][]byte{b.file[:cut]}}
+	return &edited{base: b, class: class, edit: fmt.Sprintf("cut@%s", b.pos(cut)), segs: [][]byte{b.file[:cut]}, isCut: true, cut: cut}
 }
 
 func (b *base) extend(class, what string, tail []byte) *edited {
@@ -170,6 +170,17 @@ func (m *monitor) stageMulti(jobs *[]job) {
 		}
 		for i := 0; i < m.r.Pick(40, 800); i++ {
 			m.addA(jobs, cost, b.trunc("trunc-interior-sampled", b.hdrLen+rng.Intn(L-b.hdrLen)))
+		}
+		// truncations that get every end report of the source: the middle of
+		// every non-final chunk, and four places inside the final chunk
+		for k := 0; k < nc-1; k++ {
+			m.addA(jobs, 4*cost, b.trunc("trunc-mid-chunk", b.boundary(k)+encChunk/2+k))
+		}
+		fin := b.boundary(nc - 1)
+		for _, cut := range dedupInts(fin+1, fin+(L-fin)/2, L-refage.TagSize-1, L-1) {
+			if cut > fin && cut < L {
+				m.addA(jobs, 4*cost, b.trunc("trunc-inside-final", cut))
+			}
 		}
 
 		// extensions
@@ -878,7 +889,6 @@ func (m *monitor) crashCase(n int, pt []byte, ptDesc string, fullLen int, sp cra
 	left := append([]byte{}, fw.Buf...)
 	b := &base{name: name, origin: "age.Encrypt interrupted", pt: pt, ptDesc: ptDesc, file: nil, hdrLen: refage.HeaderEnd(left)}
 	e := &edited{base: b, class: "crash-point", edit: sp.String(), segs: [][]byte{left}}
-	e = e.with(e.kinds()[0])
 	m.r.Distinct(name + "|crash|" + sp.String())
 	if fw.Fired > 0 {
 		m.r.Count("crash_faults_fired", 1)
@@ -898,13 +908,15 @@ func (m *monitor) crashCase(n int, pt []byte, ptDesc string, fullLen int, sp cra
 	op, merr := refage.Decrypt(left, keys.P("X1").Ref)
 	if merr == nil && op != nil {
 		// the final chunk was completely written: a valid file
+		e = e.with(e.hashedKind(false)[0])
 		o := m.judgeB(e, op.Plaintext, true)
 		if o != nil && o.clean() && !bytes.Equal(op.Plaintext, pt) {
 			m.r.Inconclusive("%s %s: the destination holds a valid file of a different plaintext", name, sp)
 		}
 		return
 	}
-	// incomplete: oracle (a)
+	// incomplete: oracle (a); the source may report its premature end in any way
+	e = e.with(e.hashedKind(true)[0])
 	var o *outcome
 	m.r.Guard(e.key("panic"), func() { o = m.decrypt(e, pt) })
 	m.r.Eval(1)
@@ -912,6 +924,7 @@ func (m *monitor) crashCase(n int, pt []byte, ptDesc string, fullLen int, sp cra
 		return
 	}
 	m.r.Tab("edit_class", e.class)
+	m.tabDelivery(e)
 	m.r.Tab("result", o.errClass())
 	m.checkA(e, o)
 	m.r.SampleN("a:crash", 2, map[string]any{"oracle": "a", "file": name, "crash": sp.String(), "writer_error": fmt.Sprint(werr),
